@@ -331,6 +331,17 @@ def tags(ctx, f, b, sw, target, v, buf):
     F = ctx.facts
     region = arm_region(b, sw, target)
     tcs = tag_closures(F, f, b, region) + tag_shifts_inline(f, b, region)
+    if not tcs:
+        # the shift may be written with a named function handed to for_each / a combinator chain: look at the desugared body
+        bd = inl(F, f, desugar=True, tag="c11-desugar")
+        if bd is not None and diff_switches(bd):
+            swd, infod = diff_switches(bd)[0]
+            armsd, _ = arm_targets(infod)
+            if v in armsd:
+                regd = arm_region(bd, swd, armsd[v])
+                alt = tag_shifts_inline(f, bd, regd)
+                if alt:
+                    b, sw, target, region, tcs = bd, swd, armsd[v], regd, alt
     where = b.line_at((target, 0))
     want = {"PushFront": ("+", None), "Insert": ("+", "Ge"), "PopFront": ("-", "any"), "Remove": ("-", "Gt")}
     if v not in want:
@@ -370,7 +381,9 @@ def tags(ctx, f, b, sw, target, v, buf):
                     {"Gt": ">", "Ge": ">="}[other], v, {"Gt": ">", "Ge": ">="}[guard],
                     "the item that was at the insertion index keeps its old tag, two entries then claim the same source index" if v == "Insert" else "the removed position's successor is shifted twice / not at all"))
             else:
-                probs.append("guard of the shift not recognised as `tag %s index`" % {"Gt": ">", "Ge": ">="}[guard])
+                # e.g. the selection is made by an iterator adapter (`.filter(..)`) whose predicate is not a branch of this body
+                ctx.undecided("R11.4", f, "tag-shift:%s" % v, cb.line_at(cloc), "guard of the shift not recognised as `tag %s index`" % {"Gt": ">", "Ge": ">="}[guard])
+                return
     ctx.verdict(not probs, "R11.4", f, "tag-shift:%s" % v, cb.line_at(cloc), "arm %s: tags %s are shifted by %s1" % (v, {"Ge": ">= index", "Gt": "> index", None: "(all)", "any": "of the other items"}[guard], sign),
                 "sort translator, arm %s: %s" % (v, "; ".join(probs)))
 
